@@ -90,7 +90,10 @@ def analyse(plan: dict[str, Any], result: dict[str, Any]) -> Report:
     topo = topo_of(plan)
     table = layer_table(plan)
     pp, dp, mp = plan['pipe'], plan['data'], plan['model']
-    eps = R.EPS['float32']
+    eps = max(R.EPS['float32'],
+              R.EPS[plan['kfac'].get('factor_dtype') or 'float32'],
+              R.EPS[plan['kfac'].get('inv_dtype') or 'float32'])
+    want_fdtype = plan['kfac'].get('factor_dtype') or 'float32'
     incs_plan = split_incarnations(plan['ops'])
     for k, inc in enumerate(result['incs']):
         st = inc['status']
@@ -353,7 +356,9 @@ def _state_vs_ref(rep: Report, plan: dict[str, Any],
     if 'layers' not in st:
         return
     for s, ref in refs.items():
-        tol = R.C_FACTOR * R.EPS['float32'] * max(1.0, ref.n_updates) ** 0.5
+        tol = R.C_FACTOR * R.EPS[plan['kfac'].get('factor_dtype')
+                                 or 'float32'] * max(
+            1.0, ref.n_updates) ** 0.5
         for n in ref.infos:
             for f, want in (('A', ref.A[n]), ('G', ref.G[n])):
                 got = st['layers'].get(n, {}).get(f)
@@ -419,7 +424,9 @@ def _save_checks(rep: Report, plan: dict[str, Any], topo: Any,
                             layer=n, factor=fk, owner=owner, key=key)
     # the inverse worker's factors are the right ones (vs reference)
     for s, ref in refs.items():
-        tol = R.C_FACTOR * R.EPS['float32'] * max(1.0, ref.n_updates) ** 0.5
+        tol = R.C_FACTOR * R.EPS[plan['kfac'].get('factor_dtype')
+                                 or 'float32'] * max(
+            1.0, ref.n_updates) ** 0.5
         for n in ref.infos:
             if n not in own:
                 continue
@@ -427,6 +434,10 @@ def _save_checks(rep: Report, plan: dict[str, Any], topo: Any,
                 got = own[n][1][fk]
                 if got is None or want is None:
                     continue
+                if str(got.dtype) != 'torch.' + (plan['kfac'].get(
+                        'factor_dtype') or 'float32'):
+                    rep.bad('C18.saved_factor_dtype', layer=n, factor=fk,
+                            got=str(got.dtype), key=key)
                 e = R.rel_err(got, want)
                 rep.stats['saved_factor_comparisons'] += 1
                 if e > tol:
@@ -452,7 +463,8 @@ def check_dir_files(rep: Report, plan: dict[str, Any], fs_files: dict,
         for fk in ('A', 'G'):
             if (got[fk] is None) != (f[fk] is None) or (
                     got[fk] is not None
-                    and not torch.equal(got[fk], f[fk])):
+                    and not (got[fk].dtype == f[fk].dtype
+                             and torch.equal(got[fk], f[fk]))):
                 rep.bad('C18.layer_file_content', layer=n, factor=fk)
     extra = [p for p in fs_files if p.startswith(d + '/')
              and p[len(d) + 1:] not in own]
